@@ -3,7 +3,10 @@ package ccrypto
 import (
 	"encoding/hex"
 	"fmt"
+	"github.com/jcmturner/gokrb5/v8/crypto"
+	"github.com/jcmturner/gokrb5/v8/types"
 	"math/rand"
+	"strings"
 
 	"verif/engine"
 	"verif/ref/rcrypto"
@@ -63,19 +66,36 @@ func RunC06(c *engine.Ctx) {
 				if et2 != et {
 					g2 = goET(et2)
 				}
-				var out []byte
-				var derr error
-				if pn := safely(func() { out, derr = g2.DecryptMessage(k, append([]byte{}, in...), u) }); pn != "" {
-					c.Violate("mutated", fmt.Sprintf("panic:et%d:%s", et2, class), map[string]interface{}{"panic": pn, "mutation": mut}, cs)
-					return
+				// the etype method always; the package-level entry points (what message handling calls) for a
+				// rotating third of the cases and for every usage / key / etype substitution
+				apis := []string{"etype.DecryptMessage"}
+				if evals%3 == 0 || strings.HasPrefix(class, "other-") {
+					apis = append(apis, "crypto.DecryptMessage", "crypto.DecryptEncPart")
 				}
-				if derr == nil || len(out) != 0 {
-					if _, _, rerr := rcrypto.Decrypt(et2, k, u, in); rerr == nil {
-						refAccepts++
+				for _, api := range apis {
+					var out []byte
+					var derr error
+					if pn := safely(func() {
+						switch api {
+						case "etype.DecryptMessage":
+							out, derr = g2.DecryptMessage(k, append([]byte{}, in...), u)
+						case "crypto.DecryptMessage":
+							out, derr = crypto.DecryptMessage(append([]byte{}, in...), types.EncryptionKey{KeyType: et2, KeyValue: k}, u)
+						default:
+							out, derr = crypto.DecryptEncPart(types.EncryptedData{EType: et2, Cipher: append([]byte{}, in...)}, types.EncryptionKey{KeyType: et2, KeyValue: k}, u)
+						}
+					}); pn != "" {
+						c.Violate("mutated", fmt.Sprintf("panic:et%d:%s", et2, class), map[string]interface{}{"panic": pn, "mutation": mut, "api": api}, cs)
 						return
 					}
-					c.Violate("mutated", fmt.Sprintf("accepted:et%d:%s", et2, class), map[string]interface{}{"mutation": mut, "returned_plaintext_len": len(out), "err": fmt.Sprint(derr)}, cs)
-					return
+					if derr == nil || len(out) != 0 {
+						if _, _, rerr := rcrypto.Decrypt(et2, k, u, in); rerr == nil {
+							refAccepts++
+							return
+						}
+						c.Violate("mutated", fmt.Sprintf("accepted:et%d:%s", et2, class), map[string]interface{}{"mutation": mut, "returned_plaintext_len": len(out), "err": fmt.Sprint(derr), "api": api}, cs)
+						return
+					}
 				}
 				rejected++
 				c.Distinct(fmt.Sprintf("%d/%s", et2, class))
@@ -150,6 +170,42 @@ func RunC06(c *engine.Ctx) {
 					try(fmt.Sprintf("usage-%d", u), et, key, u, ct, "other-usage")
 				}
 			}
+			// usage matrix: a ciphertext made under u1 presented under u2, for all u1 != u2 in 0..32 and the byte
+			// boundaries (rc4: modulo the aliases); and flips / truncations of a ciphertext made under usage 0
+			if l == 0 || l == 17 || l == 40 {
+				small := []uint32{127, 128, 255, 256}
+				for u := uint32(0); u <= 32; u++ {
+					small = append(small, u)
+				}
+				for _, u1 := range small {
+					ct1, err := rcrypto.EncryptWithConfounder(et, key, u1, randBytes(r, p.Conf), pt)
+					if err != nil {
+						engine.Fatal("reference encrypt: %v", err)
+					}
+					if got, err := crypto.DecryptMessage(append([]byte{}, ct1...), types.EncryptionKey{KeyType: et, KeyValue: key}, u1); err != nil || !expectPlain(et, pt, got) {
+						c.Violate("genuine", fmt.Sprintf("genuine-rejected:et%d:usage-matrix", et), map[string]interface{}{"err": fmt.Sprint(err), "usage": u1}, base)
+						continue
+					}
+					evals++
+					for _, u2 := range small {
+						if u2 == u1 || (et == rcrypto.RC4 && rcrypto.RC4UsageClass(u2) == rcrypto.RC4UsageClass(u1)) {
+							continue
+						}
+						try(fmt.Sprintf("made-under-usage-%d-presented-under-%d", u1, u2), et, key, u2, ct1, "other-usage")
+					}
+					if u1 == 0 {
+						for i := 0; i < len(ct1)*8; i += 5 {
+							m := append([]byte{}, ct1...)
+							m[i/8] ^= 1 << uint(7-i%8)
+							try(fmt.Sprintf("usage-0-flip-bit-%d", i), et, key, 0, m, "other-bitflip-usage-0")
+						}
+						for n := 0; n < len(ct1); n++ {
+							try(fmt.Sprintf("usage-0-truncate-to-%d", n), et, key, 0, ct1[:n], "other-truncate-usage-0")
+						}
+						try("usage-0-random-bytes", et, key, 0, randBytes(r, len(ct1)), "other-random-usage-0")
+					}
+				}
+			}
 			// unrelated keys
 			for i, k := range otherKeys {
 				try(fmt.Sprintf("other-key-%d", i), et, k, usage, ct, "other-key")
@@ -182,7 +238,8 @@ func RunC06(c *engine.Ctx) {
 	c.Add("traces_validated_against_impl", evals)
 	c.Cov["rejected"] = rejected
 	c.Cov["reference_accepts"] = refAccepts
-	c.Cov["rule"] = "for etype(6) x plaintext length 0..64: every single-bit flip, every truncation, appended/prepended bytes, every swap of two aligned blocks, every other usage of the usage set (rc4: modulo RFC 4757 aliases), 3 unrelated keys, same key under each other etype of equal key length; distinct = (etype, mutation class) pairs that were exercised and rejected"
+	concurrentSchedules(c, "C06")
+	c.Cov["rule"] = "for etype(6) x plaintext length 0..64: every single-bit flip, every truncation, appended/prepended bytes, every swap of two aligned blocks, every other usage of the usage set and a dense sweep 1..1200 (rc4: modulo RFC 4757 aliases), the full made-under x presented-under matrix for usages 0..32 and 127/128/255/256, flips and truncations under usage 0, each through the etype method and (for a third of the cases and all substitutions) crypto.DecryptMessage and crypto.DecryptEncPart, 3 unrelated keys, same key under each other etype of equal key length; distinct = (etype, mutation class) pairs that were exercised and rejected"
 }
 
 func bytesEqual(a, b []byte) bool {
